@@ -40,12 +40,25 @@ class World:
         return self.counter
 
 
+def detach(e):
+    """An exception of the same class and arguments WITHOUT traceback.  The harness must never keep the original: its
+    traceback references the catching frame, whose local would reference the exception again - a cycle that (with the
+    cyclic collector switched off) would keep every object in those frames alive and falsify liveness."""
+    if e is None:
+        return None
+    try:
+        n = type(e)(*e.args)
+    except Exception:
+        n = Exception(f"{type(e).__name__}: {e}")
+    return n
+
+
 class Outcome:
     __slots__ = ("targets", "raised", "new", "readonly", "note")
 
     def __init__(self, targets=(), raised=None, new=None, readonly=False, note=None):
         self.targets = set(targets)
-        self.raised = raised
+        self.raised = detach(raised)
         self.new = new
         self.readonly = readonly
         self.note = note
@@ -55,7 +68,7 @@ class Outcome:
 # canonical heap form
 # ------------------------------------------------------------------------------------------
 
-def canon_world(world, registry_mode="current"):
+def canon_world(world, registry_mode="current", refcounts=False):
     """Canonical, hashable image of everything a future operation can read (addresses replaced by
     first-visit indices).  registry_mode: 'current' = owners registered under each object's current
     storage identity; 'full' = whole registry incl. stale entries and the allocator's reusable ids (C15)."""
@@ -100,6 +113,10 @@ def canon_world(world, registry_mode="current"):
                 fp_state = "uncomputable"
         rec = [type(o).__name__, repr(d.get("_name", None)), None if dt is None else (dt.kind.__name__, dt.nullable),
                d.get("_display_as_row", False), d.get("_wild", None), fp_state, tuple(elems), vid_of(und)]
+        if refcounts:
+            # hidden references (an exception <-> traceback <-> frame cycle, a module-level cache holding the object) decide
+            # whether the object dies when the program drops it: part of the state as far as liveness-sensitive futures go
+            rec.append(sys.getrefcount(o))
         if is_table(o):
             cm = d.get("_column_map", None)
             rec += [d.get("_length", None), None if cm is None else tuple(sorted(cm.items())), d.get("_repr_rows", None)]
